@@ -106,15 +106,34 @@ Definition starts_ok (cs : list N) : Prop :=
   | _ => False
   end.
 
+Lemma enc_u32_small bg c : (c < 256)%N -> enc_u32 bg c = if bg then [0; 0; 0; c]%N else [c; 0; 0; 0]%N.
+Proof.
+  intros H. unfold enc_u32.
+  rewrite (N.div_small c 16777216), (N.div_small c 65536), (N.div_small c 256), (N.mod_small c 256) by lia.
+  reflexivity.
+Qed.
+
 Theorem detect_utf32 bg cs :
   starts_ok cs -> detect (firstn 4 (utf32_encode bg cs)) = if bg then Utf32Big else Utf32Little.
 Proof.
   destruct cs as [|c0 [|c1 r]]; try contradiction. intros H.
-  unfold utf32_encode. cbn [flat_map]. unfold enc_u32.
-  destruct H as [(-> & H1 & _)|(H0 & H1 & _)]; destruct bg; cbn -[N.div N.modulo];
-    unfold firstn, detect, detect2, eq0;
-    repeat match goal with |- context [if ?b then _ else _] => destruct b eqn:? end;
-    try reflexivity; lia.
+  unfold utf32_encode. cbn [flat_map].
+  destruct H as [(-> & _)|(H0 & _)].
+  - destruct bg; reflexivity.
+  - rewrite (enc_u32_small bg c0) by lia.
+    assert (E0 : (c0 =? 0)%N = false) by lia. assert (E5 : (c0 =? 255)%N = false) by lia.
+    destruct bg; cbv beta iota delta [app firstn]; unfold detect, detect2, eq0; rewrite ?E0, ?E5; reflexivity.
+Qed.
+
+Lemma units_head c1 : (0 < c1 <= 1114111)%N -> exists u rest, utf16_units c1 = u :: rest /\ (0 < u < 65536)%N.
+Proof.
+  intros H. unfold utf16_units. destruct (c1 <? 65536)%N eqn:E; eexists; eexists; (split; [reflexivity|]); lia.
+Qed.
+
+Lemma enc_u16_nz bg u : (0 < u < 65536)%N ->
+  exists x y, enc_u16 bg u = [x; y] /\ ((x =? 0) && (y =? 0))%N = false.
+Proof.
+  intros H. unfold enc_u16. destruct bg; eexists; eexists; (split; [reflexivity|]); lia.
 Qed.
 
 Theorem detect_utf16 bg cs :
@@ -122,12 +141,17 @@ Theorem detect_utf16 bg cs :
 Proof.
   destruct cs as [|c0 [|c1 r]]; try contradiction. intros H.
   unfold utf16_encode. cbn [flat_map].
+  assert (Hc1 : (0 < c1 <= 1114111)%N) by (destruct H as [(_ & H1 & _)|(_ & H1 & _)]; exact H1).
+  destruct (units_head c1 Hc1) as (u & urest & Eu & Hu). rewrite Eu. cbn [flat_map].
+  destruct (enc_u16_nz bg u Hu) as (x & y & Exy & Hnz). rewrite Exy.
   assert (Hu0 : utf16_units c0 = [c0]).
-  { apply utf16_bmp_unit. destruct H as [(-> & _)|(H0 & _)]; lia. }
-  rewrite Hu0. cbn [flat_map app]. rewrite app_nil_r.
-  unfold utf16_units. destruct (c1 <? 65536)%N eqn:E1; cbn [flat_map app]; unfold enc_u16;
-    destruct H as [(-> & H1 & Hs)|(H0 & H1 & Hs)]; unfold is_scalar in Hs; destruct bg;
-    cbn -[N.div N.modulo]; unfold firstn, detect, detect2, eq0;
-    repeat match goal with |- context [if ?b then _ else _] => destruct b eqn:? end;
-    try reflexivity; lia.
+  { unfold utf16_units. destruct (c0 <? 65536)%N eqn:E; [reflexivity|]. destruct H as [(-> & _)|(H0 & _)]; lia. }
+  rewrite Hu0. cbn [flat_map]. rewrite app_nil_r.
+  destruct (x =? 0)%N eqn:Ex; destruct (y =? 0)%N eqn:Ey; cbn [andb] in Hnz; try discriminate;
+    (destruct H as [(-> & _)|(H0 & _)];
+     [destruct bg; cbv beta iota delta [enc_u16 app firstn]; unfold detect, detect2, eq0;
+      change (65279 mod 256)%N with 255%N; change (65279 / 256)%N with 254%N; rewrite ?Ex, ?Ey; reflexivity
+     |unfold enc_u16; rewrite (N.div_small c0 256), (N.mod_small c0 256) by lia;
+      assert (E0 : (c0 =? 0)%N = false) by lia; assert (E4 : (c0 =? 254)%N = false) by lia; assert (E5 : (c0 =? 255)%N = false) by lia;
+      destruct bg; cbv beta iota delta [app firstn]; unfold detect, detect2, eq0; rewrite ?E0, ?E4, ?E5, ?Ex, ?Ey; reflexivity]).
 Qed.
